@@ -113,6 +113,7 @@ const (
 	verifEvPolicyAdd       = 18 // under the policy lock: key, cost; decision starts
 	verifEvPolicyReject    = 19 // under the policy lock: key, incoming estimate, minimum estimate
 	verifEvPolicyFits      = 20 // under the policy lock: key admitted on the fast path
+	verifEvGetsDropped     = 21 // a batch of Get hashes was dropped: first key, batch size
 )
 
 func verifB2I(b bool) int64 {
